@@ -106,6 +106,67 @@ Proof.
   all: match goal with H : _ = ?c \/ False |- ?c = _ => destruct H as [<-|[]]; reflexivity end.
 Qed.
 
+(* ---- the follower's pooled connections: no forwarded request is answered with another's answer ---- *)
+
+Definition clean (st : pstate) : Prop :=
+  Forall (fun c : pconn => c = []) (pl_pool st) /\ pl_reused st = false.
+
+Lemma clean_concat (l : list pconn) : Forall (fun c : pconn => c = []) l -> List.concat l = [].
+Proof. induction 1 as [|c l Hc _ IH]; [reflexivity|]. cbn [List.concat]. now rewrite Hc, IH. Qed.
+
+Lemma forward_clean st s :
+  clean st ->
+  let '(r, st') := forward false st s in
+  clean st' /\ (r = Some (ps_id s) \/ (r = None /\ ps_slow s = true)).
+Proof.
+  intros [Hp Hr]. unfold forward. rewrite Hr.
+  assert (E : exists rest, (match pl_pool st with c :: rest => (c, rest) | [] => ([], []) end) = ([], rest)
+                           /\ Forall (fun c : pconn => c = []) rest).
+  { destruct (pl_pool st) as [|c rest]; [exists []; auto|].
+    inversion Hp as [|? ? Hc Hrest]; subst. exists rest. auto. }
+  destruct E as (rest & -> & Hrest). cbn [orb attempt].
+  destruct (ps_slow s) eqn:Hs.
+  - destruct (ps_retry s); cbn [attempt]; rewrite ?Hs; cbn [put]; (split; [split; [exact Hrest | reflexivity] | right; auto]).
+  - cbn [put]. split; [|left; reflexivity]. split; [|reflexivity].
+    apply Forall_app. split; [exact Hrest | constructor; [reflexivity | constructor]].
+Qed.
+
+(* With the client rule (a connection whose exchange failed is never pooled again): every
+   forwarded request either fails with a timeout — only when the leader was slower than its
+   deadline — or receives the answer to ITSELF; no connection with an owed answer is ever reused,
+   and none is left in the pool. *)
+Theorem pool_transparent ss : forall st, clean st ->
+  let '(rs, st') := forward_all false st ss in
+  Forall2 (fun s r => r = Some (ps_id s) \/ (r = None /\ ps_slow s = true)) ss rs
+  /\ pl_reused st' = false /\ owed st' = 0%nat.
+Proof.
+  induction ss as [|s r IH]; intros st Hc; cbn [forward_all].
+  - destruct Hc as [Hp Hr]. repeat split; [constructor | exact Hr |].
+    unfold owed. now rewrite (clean_concat _ Hp).
+  - pose proof (forward_clean st s Hc) as H. destruct (forward false st s) as [x st1].
+    destruct H as [Hc1 Hx]. specialize (IH st1 Hc1).
+    destruct (forward_all false st1 r) as [xs st2]. destruct IH as (Hf & Hr & Ho).
+    repeat split; [constructor; assumption | exact Hr | exact Ho].
+Qed.
+
+Lemma clean0 : clean pstate0. Proof. split; [constructor | reflexivity]. Qed.
+
+Theorem pool_transparent0 ss :
+  let '(rs, st') := forward_all false pstate0 ss in
+  Forall2 (fun s r => r = Some (ps_id s) \/ (r = None /\ ps_slow s = true)) ss rs
+  /\ pl_reused st' = false /\ owed st' = 0%nat.
+Proof. exact (pool_transparent ss pstate0 clean0). Qed.
+
+(* what the rule buys: without it the next requests are answered with the timed-out request's answer *)
+Example ex_pool :
+  let ss := [ {| ps_id := 1; ps_slow := true; ps_retry := true |};
+              {| ps_id := 2; ps_slow := false; ps_retry := true |};
+              {| ps_id := 3; ps_slow := false; ps_retry := true |} ]%N in
+  fst (forward_all false pstate0 ss) = [None; Some 2; Some 3]%N
+  /\ fst (forward_all true pstate0 ss) = [None; Some 1; Some 1]%N
+  /\ pl_reused (snd (forward_all true pstate0 ss)) = true.
+Proof. vm_compute. auto. Qed.
+
 (* ---- the follower's store (Model.C16, tied to store.Store by C16's check) ---- *)
 
 Import C16.
